@@ -28,6 +28,11 @@ SetByIndex(v, i, e) == /\ IsArr(v)
                        /\ UNCHANGED <<ls, mut>>
 SetLength(v, n) == /\ IsArr(v) /\ vs' = [vs EXCEPT ![v] = <<"Array", Grow(vs[v][2], n)>>]
                    /\ pads' = pads \cup NewPads(vs[v][2], n) /\ UNCHANGED <<ls, mut>>
+\* A length BELOW the current one: the property speaks of growing only. Leaving the array as it is and cutting it to that
+\* length (the variant's own elements, nobody else's) are both accepted; `cut` says which one was observed.
+SetLengthDown(v, n, cut) == /\ IsArr(v) /\ n >= 0 /\ n < Len(vs[v][2])
+                            /\ vs' = [vs EXCEPT ![v] = <<"Array", IF cut THEN SubSeq(vs[v][2], 1, n) ELSE vs[v][2]>>]
+                            /\ UNCHANGED <<ls, pads, mut>>
 \* a caller changes, in place, the Null element that growth put at position i (elements are shared by reference
 \* between an array and its shallow copies, so exactly the arrays holding THAT element see it)
 MutElem(v, i) == /\ mut' = IF IsArr(v) /\ i >= 0 /\ i < Len(vs[v][2]) /\ vs[v][2][i + 1] \in pads THEN mut \cup {vs[v][2][i + 1]} ELSE mut
